@@ -21,7 +21,9 @@ DATASETS = {
 INSIDE = {"p0": (0, 1.0, 41), "p1": (-2, 0.5, 81), "p2": (5, 0.25, 121), "p3": (0, 0.3, 161)}
 TGRIDS = {"hot": dict(T_MIN=0, NT=4, DT=4000, DT_SAMPLE=4000),
           # square (T,V) grids: qha appends 4 guard temperatures, so NT + 4 == NTV for the pressure grids p0 (41) and p1 (81)
-          "sq41": dict(T_MIN=0, NT=37, DT=60, DT_SAMPLE=60), "sq81": dict(T_MIN=50, NT=77, DT=30, DT_SAMPLE=30), "t0": dict(T_MIN=0, NT=4, DT=600, DT_SAMPLE=600), "t1": dict(T_MIN=300, NT=3, DT=1200, DT_SAMPLE=1200), "t2": dict(T_MIN=0, NT=2, DT=50, DT_SAMPLE=50)}
+          "sq41": dict(T_MIN=0, NT=37, DT=60, DT_SAMPLE=60), "sq81": dict(T_MIN=50, NT=77, DT=30, DT_SAMPLE=30), "t0": dict(T_MIN=0, NT=4, DT=600, DT_SAMPLE=600), "t1": dict(T_MIN=300, NT=3, DT=1200, DT_SAMPLE=1200), "t2": dict(T_MIN=0, NT=2, DT=50, DT_SAMPLE=50),
+          # static_only: the QHA layer's F, P(T,V) carry no phonon part, so all isotherms of P coincide while cij's moduli keep their T dependence
+          "t0-static": dict(T_MIN=0, NT=4, DT=600, DT_SAMPLE=600, static_only=True)}
 AVERAGES = ["bulk_modulus_voigt", "bulk_modulus_reuss", "bulk_modulus_voigt_reuss_hill", "shear_modulus_voigt",
             "shear_modulus_reuss", "shear_modulus_voigt_reuss_hill", "primary_velocities", "secondary_velocities"]
 
@@ -29,7 +31,7 @@ AVERAGES = ["bulk_modulus_voigt", "bulk_modulus_reuss", "bulk_modulus_voigt_reus
 def spec_of(case):
     s = dict(DATASETS[case["data"]])
     q = dict(TGRIDS[case["tgrid"]])
-    if "pgrid" in case and case["pgrid"] not in ("between", "pmin-offset"):
+    if "pgrid" in case and case["pgrid"] not in ("between", "pmin-offset", "edge-top", "edge-bottom"):
         pmin, dp, ntv = INSIDE[case["pgrid"]] if isinstance(case["pgrid"], str) else case["pgrid"]
         q.update(P_MIN=pmin, DELTA_P=dp, DELTA_P_SAMPLE=dp * case.get("sample_stride", 1), NTV=ntv)
     s["qha"] = q
@@ -86,11 +88,34 @@ def run_case(case):
             if not (ends2.min() + 0.25 <= ref.p_desired_max_gpa <= ends2.max() - 0.25):
                 raise HarnessError("between-case construction failed")
             case = dict(case, near=True)
+        if case.get("pgrid") in ("edge-top", "edge-bottom"):
+            # still inside the range at every temperature, but the top (bottom) of the grid lies in the LAST (FIRST) volume
+            # interval of the isotherm that limits it
+            ptv = numpy.array(ref.q.p_tv_gpa)
+            if case["pgrid"] == "edge-top":
+                hi, hi2 = ptv[:, -1].min(), ptv[:, -2].min()
+                top, pmin = hi - 0.3 * (hi - hi2), 0.0
+                if not hi2 < top < hi:
+                    raise HarnessError("edge-top construction failed")
+            else:
+                lo, lo2 = ptv[:, 0].max(), ptv[:, 1].max()
+                pmin, top = lo + 0.3 * (lo2 - lo), 0.4 * ptv[:, -1].min()
+                if not (lo < pmin < lo2 and pmin < 0):
+                    raise HarnessError(f"edge-bottom construction failed: {lo} {lo2}")
+            spec["qha"].update(P_MIN=float(pmin), NTV=41, DELTA_P=float((top - pmin) / 40), DELTA_P_SAMPLE=float((top - pmin) / 40))
+            ds, st = synth.write(d, spec)
+            ref = P.Pipeline(d, repo_root(), laws=ds["laws"])
+            ptv = numpy.array(ref.q.p_tv_gpa)
+            pd = numpy.array(ref.q.desired_pressures_gpa)
+            if not (ptv[:, 0].max() < pd.min() and pd.max() < ptv[:, -1].min() and
+                    (ptv[:, -2].min() < pd.max() if case["pgrid"] == "edge-top" else pd.min() < ptv[:, 1].max())):
+                raise HarnessError("edge grid is not where it was meant to be")
+            case = dict(case, edge=True)
         reach, want_max = ref.p_reach_gpa, ref.p_desired_max_gpa
         expect_error = case.get("expect") == "error"
         if expect_error and not want_max >= 2 * reach and not (want_max > reach and case.get("near")):
             raise HarnessError(f"overshoot case does not overshoot: max desired {want_max} reach {reach}")
-        if not expect_error and not want_max <= 0.5 * reach:
+        if not expect_error and not case.get("edge") and not want_max <= 0.5 * reach:
             raise HarnessError(f"inside case is not inside: max desired {want_max} reach {reach}")
         from cij.core.calculator import Calculator
         try:
@@ -163,6 +188,10 @@ def run_case(case):
             except Exception as ex:
                 viol.append(V(f"c06:quantity-raises:{name.split('.')[0][:1]}:{type(ex).__name__}", f"{name}: {K.fmt_exc(ex)}"))
                 continue
+            if not numpy.all(numpy.isfinite(f_tv)):
+                if not spec["qha"].get("static_only"):
+                    viol.append(V("c06:nonfinite-volume-base", f"{name}: the (T,V) table has non-finite entries"))
+                continue
             if f_tp.shape != (nt, npz):
                 viol.append(V("c06:shape", f"{name}: pressure-base shape {f_tp.shape} expected {(nt, npz)}"))
                 continue
@@ -230,13 +259,15 @@ def overshoot_cases():
 
 
 def explore(ctx):
-    ctx.rule = ("3 synthetic data sets x 3 temperature grids x 4 inside pressure grids (+ square (T,V) grids with NT+4 == NTV) (max requested <= reach/2): every modulus "
+    ctx.rule = ("3 synthetic data sets x 3 temperature grids x 4 inside pressure grids (+ square (T,V) grids with NT+4 == NTV) (max requested <= reach/2), + static_only runs (coinciding isotherms of P), + grids whose top / bottom lies in the last / first volume interval of the limiting isotherm: every modulus "
                 "(adiabatic, isothermal, attribute spellings), compliances, 6 averages, 2 velocities and V at every (T,P) node vs an "
                 "independent cubic spline along the isotherm; pressure round trip; exact conversion of cubic-in-P fields; plus 60 "
                 "overshooting grids (max requested >= 2x reach) and 6 grids whose maximum lies between the reach of the coldest and the hottest isotherm, all of which must be rejected; complete in both tiers; non-trivial = >10 quantities checked")
     ctx.assumptions = ["qha's P(T,V) and V(T,P) are trusted as a library", "tolerance: 25% of the local cell variation (DESIGN §5)"]
     inside = [{"data": dname, "tgrid": tg, "pgrid": pg} for dname in DATASETS for tg in TGRIDS if tg not in ("hot", "sq41", "sq81") for pg in INSIDE]
     inside += [{"data": dname, "tgrid": tg, "pgrid": pg} for dname in ("A", "C") for tg, pg in (("sq41", "p0"), ("sq81", "p1"))]
+    inside += [{"data": dname, "tgrid": "t0-static", "pgrid": pg} for dname in DATASETS for pg in ("p0", "p2")]
+    inside += [{"data": dname, "tgrid": tg, "pgrid": pg} for dname in DATASETS for tg, pg in (("t0", "edge-top"), ("t1", "edge-top"), ("t2", "edge-bottom"), ("t0", "edge-bottom"))]
     res = ctx.run(MOD, "run_case", inside, part="inside-grids", chunksize=1)
     ctx.notes["grid_nodes_checked"] = sum(r.get("nodes", 0) for r in res)
     ctx.run(MOD, "run_case", overshoot_cases(), part="overshooting-grids", chunksize=1)
